@@ -8,6 +8,7 @@ import GocoinV.Proofs.C04Basic
 import GocoinV.Proofs.C04Witness
 import GocoinV.Proofs.C04Sums
 import GocoinV.Proofs.C04NoDouble
+import GocoinV.Proofs.C04Checks
 namespace GocoinV.Props.C04
 open GocoinV GocoinV.Connect GocoinV.Proofs.C04
 open GocoinV.Spec.Connect (connectBlock absList absGet isOk failsWith subsidy)
@@ -54,6 +55,21 @@ theorem accept_advances (cfg : Cfg) (c : Chain) (b : Block) (so : Nat) (c' : Cha
     obtain ⟨h1, _⟩ := h
     subst h1
     by_cases hm : b.hash ∈ c.index <;> simp [hm]
+
+/-! ### context-free checks agree with the specification -/
+
+/-- `Tx.IsFinal` is Bitcoin's IsFinalTx (same verdict for every transaction, height and time cut-off). -/
+theorem final_iff_spec (tx : Tx) (height cutoff : Nat) :
+    isFinal tx height cutoff = GocoinV.Spec.Connect.isFinalTx tx height cutoff :=
+  isFinal_eq tx height cutoff
+
+/-- The output loop added to `CheckTransaction` accepts only what the specification's MoneyRange test accepts:
+    every value and every running total within [0, MAX_MONEY]. -/
+theorem amounts_in_range (outs : List TxOut) (h : checkOutValues outs 0 = .ok ()) :
+    GocoinV.Spec.Connect.outsInRange outs 0 = true :=
+  checkOut_spec outs 0 (by decide) h
+
+example : checkOutValues [⟨2100000000000000, []⟩] 0 = .ok () := rfl
 
 /-! ### no outpoint is spent twice inside one block -/
 
